@@ -94,7 +94,18 @@ def post(ctx, c, rep):
         ctx.traces_validated += len(reqs)
 
 
+def big_cases(ctx):
+    """UDF files of more than 0x3ffff800 bytes need several allocation descriptors: each must point at its part of the data
+    (decoded from the File Entry independently of pycdlib)"""
+    from harness import bigfile
+    bigfile.big_case(ctx, 'C10', {'udf': '2.60'}, 0x3ffff800 + 5000, 'udf-two-descriptors', udf_check=True)
+    if not ctx.quick:
+        bigfile.big_case(ctx, 'C10', {'udf': '2.60', 'joliet': 3}, 3 * 0x3ffff800 + 1, 'udf-four-descriptors', udf_check=True)
+        bigfile.big_case(ctx, 'C10', {'udf': '2.60'}, 0x3ffff800, 'udf-exactly-one-descriptor', udf_check=True)
+
+
 def run(ctx):
+    big_cases(ctx)
     run_codec(ctx)
     c01.run(ctx, focus='C10', post=post, n_quick=120, n_thorough=3000, force={'udf': '2.60'})
     # the bridge must stay consistent when a parsed image is edited (link counts, shared data, anchors)
@@ -103,6 +114,9 @@ def run(ctx):
 
 def replay(ctx, obj):
     r = obj.get('replay', obj)
+    if r.get('kind') == 'bigfile':
+        big_cases(ctx)
+        return [v['signature'] for v in ctx.violations]
     if r.get('kind') == 'codec':
         core.log('model:', ctx.driver.ask([r['request']])[0])
         return [obj.get('signature', 'C10.codec')]
